@@ -35,6 +35,7 @@ RULE = ("cells = {gram: kernel x (n in 2..6) x (d in 1..3) x geometry {generic, 
         "lengthscale {1e-2,1,1e2} x ARD; model-cov: family x parameter valuation x settings {default, fast_pred_var} x test geometry; "
         "subset-lattice: kernel x noise x pool geometry, every one of the 16 subsets and 32 edges inside the cell; variance-floor: "
         "family x noise x min_variance setting x fast_pred_var; noise-floor: likelihood x constraint x raw value}; full product; "
+        "quick = n in {2,3,6}, one generic point set, reduced lattice/valuation products; thorough = n in 2..6, three generic point sets; "
         "distinct / non-trivial = distinct cell whose covariance was obtained and decomposed")
 ASSUMPTIONS = ["torch.linalg.eigvalsh (LAPACK, float64) is trusted; its error n*eps*lambda_max is far inside the 1e-10 relative bound",
                "posterior covariances are differences of prior-sized quantities: 'up to rounding' is taken relative to "
@@ -592,7 +593,7 @@ def run_lattice(cell, seed, fails, feats):
         C0, v0 = post[0]
         lam0 = float(torch.linalg.eigvalsh(0.5 * (C0 + C0.mT)).abs().max())
         with fails.guard("lattice-set-train-data"):
-            # the same lattice walked on ONE model through set_train_data (a Gray-code free order: every subset from the full model)
+            # the same lattice walked on ONE model through set_train_data (every subset is set in turn, starting from the full pool)
             m = lattice_model(P, yP, kern, noise, ls, d)
             for mask in range(1, 16):
                 idx = [i for i in range(4) if mask >> i & 1]
